@@ -13,13 +13,13 @@ from ..ref import encode as E
 
 RULE = (
     "Frames with a column 'v' of every dtype a supported dataframe library produces for text / categorical / numeric "
-    "data (object, str, string[python], string[pyarrow], category with declared order != sorted and unobserved "
+    "data (object, str, string[python], string[pyarrow], nullable Int64/UInt8/boolean/Float64 and Arrow-backed int/bool with NA, category with declared order != sorted and unobserved "
     "categories over string or integer categories, int8..int64, uint8..uint64, float32/64, bool) plus a float column "
     "and a second categorical; formulas v, v + a, v:a, v:B, a + v + v:a; outputs pandas/numpy/sparse x materializers "
     "{pandas, narwhals on pandas, narwhals on pyarrow} x rank reduction x (string formula | one Formula object first "
     "materialised on a frame where v has the other kind). Oracle: R-encode (indicator columns in sorted "
     "order for text, declared order for categorical dtype; numeric columns unchanged), names and values; every output "
-    "has a numeric dtype (kind in b/i/u/f) and no string/object cell. Non-trivial = v is text or categorical; distinct "
+    "has a numeric dtype (kind in b/i/u/f) and no string/object cell. Non-trivial = v is text or categorical, or a nullable numeric dtype holding a missing value; distinct "
     "by (dtype, values, formula, output, materializer, rank reduction)."
 )
 ASSUMPTIONS = [
@@ -30,6 +30,8 @@ ASSUMPTIONS = [
 TEXT = ["object", "str", "string", "string[pyarrow]"]
 INTS = ["int8", "int16", "int32", "int64", "uint8", "uint16", "uint32", "uint64"]
 FLOATS = ["float32", "float64"]
+# nullable (masked / Arrow-backed) numeric dtypes: may hold missing values although their kind is i / u / b
+NULLABLE = ["Int64", "UInt8", "boolean", "Float64", "int64[pyarrow]", "bool[pyarrow]"]
 FORMULAS = [
     [["v"]], [["v"], ["a"]], [["v", "a"]], [["v", "B"]], [["a"], ["v"], ["v", "a"]], [["B"], ["B", "v"]],
 ]
@@ -45,6 +47,8 @@ def build_df(case):
         v = pd.Categorical(vals, categories=case["categories"])
     elif dt == "bool":
         v = np.array(vals, dtype=bool)
+    elif dt in NULLABLE:
+        v = pd.array([None if x is None else (bool(x) if "bool" in dt else x) for x in vals], dtype=dt)
     else:
         v = np.array(vals, dtype=dt)
     n = len(vals)
@@ -59,7 +63,7 @@ def frame_case(case):
     elif dt == "category":
         v = {"dtype": "category", "values": list(case["values"]), "categories": list(case["categories"])}
     else:
-        v = {"dtype": "float64", "values": [float(x) for x in case["values"]]}
+        v = {"dtype": "float64", "values": [None if x is None else float(x) for x in case["values"]]}
     return {
         "n": n,
         "cols": {"v": v, "a": {"dtype": "float64", "values": list(case["a"][:n])}, "B": {"dtype": "object", "values": [["q", "p", "r"][i % 3] for i in case["b"][:n]]}},
@@ -77,14 +81,18 @@ def check_case(case) -> Outcome:
     textual = dt in TEXT or dt == "category"
     out.nontrivial = textual
     na = case.get("na_action", "drop")
-    if textual and case.get("nulls"):
-        case = dict(case, values=[None if i in {p % len(case["values"]) for p in case["nulls"]} else v for i, v in enumerate(case["values"])])
-        if all(v is None for v in case["values"]):
+    if (textual or dt in NULLABLE) and (case.get("nulls") or case.get("allnull")):
+        nulled = set(range(len(case["values"]))) if case.get("allnull") else {p % len(case["values"]) for p in case["nulls"]}
+        case = dict(case, values=[None if i in nulled else v for i, v in enumerate(case["values"])])
+        if all(v is None for v in case["values"]) and not (dt in TEXT and mat != "nw-arrow" and na == "ignore"):
             # an entirely null column has no observable dtype left after an Arrow round trip: not generated
+            # (an all-missing object column kept under "ignore" is: it is text with no observed level)
             out.label("excluded:all-null-column")
             out.nontrivial = False
             return out
         out.label("nulls:" + na)
+        if dt in NULLABLE:
+            out.nontrivial = True
     df = build_df(case)
     fr = frame_case(case)
     if na == "drop":
@@ -144,7 +152,7 @@ def check_case(case) -> Outcome:
     en, eM = predict(mm.model_spec, fc, fr, efr)
     if names != en:
         out.fail("names", f"{s!r} on {dt} {case['values']} cats={case.get('categories')} via {mat}: {names} vs {en}", **feat)
-    elif got.shape != eM.shape or not np.allclose(got, eM, rtol=1e-6 if dt == "float32" else 1e-9, atol=1e-9):
+    elif got.shape != eM.shape or not np.allclose(got, eM, rtol=1e-6 if dt == "float32" else 1e-9, atol=1e-9, equal_nan=(na == "ignore")):
         out.fail("values", f"{s!r} on {dt} {case['values']} via {mat}, output {output}:\n got {got.tolist()}\n exp {eM.tolist()}", **feat)
     return out
 
@@ -152,7 +160,7 @@ def check_case(case) -> Outcome:
 def gen():
     @st.composite
     def strat(draw):
-        dt = draw(st.sampled_from(TEXT + ["category", "category"] + INTS + FLOATS + ["bool"]))
+        dt = draw(st.sampled_from(TEXT + ["category", "category"] + INTS + FLOATS + ["bool"] + NULLABLE))
         n = draw(st.integers(1, 8))
         cats = None
         if dt in TEXT:
@@ -165,8 +173,10 @@ def gen():
             k = draw(st.integers(1, 4))
             cats = list(pool[:k])
             vals = draw(st.lists(st.sampled_from(cats[: max(1, k - draw(st.integers(0, 1)))]), min_size=n, max_size=n))
-        elif dt == "bool":
+        elif dt == "bool" or (dt in NULLABLE and "bool" in dt):
             vals = draw(st.lists(st.booleans(), min_size=n, max_size=n))
+        elif dt in NULLABLE and dt != "Float64":
+            vals = draw(st.lists(st.integers(0, 200), min_size=n, max_size=n))
         elif dt in INTS:
             hi = {"int8": 127, "uint8": 255}.get(dt, 30000)
             lo = 0 if dt.startswith("u") else -min(hi, 100)
@@ -182,6 +192,7 @@ def gen():
             "output": draw(st.sampled_from(["pandas", "numpy", "sparse"])), "efr": draw(st.booleans()),
             "nulls": draw(st.one_of(st.just([]), st.just([]), st.lists(st.integers(0, 7), min_size=1, max_size=2))),
             "prime": draw(st.integers(0, 4)) == 0,
+            "allnull": dt in TEXT and draw(st.integers(0, 7)) == 0,
             "na_action": draw(st.sampled_from(["drop", "drop", "ignore"])),
         }
 
